@@ -156,6 +156,38 @@ def affine(t, nv=None, expand=True, _depth=0):
     return ({norm(t0): 1}, 0)
 
 
+def expand_len_locals(nv, a):
+    """a named local holding `x.len()` (possibly divided / cast) stands for that length when x does not change
+    between the definition and the end of the function"""
+    if a is None:
+        return None
+    out, c = {}, a[1]
+    for k, v in a[0].items():
+        rep_ = None
+        if k[0] == "local" and len(nv.defs().get(k[1], [])) == 1:
+            dblk = nv.defs()[k[1]][0][0]
+            d_ = nv.definition(k[1])
+            sub = affine(d_, nv)
+            if sub is not None and sub[0] and all((kk[0] == "call" and kk[1].endswith("::len")) or (kk[0] == "div" and kk[1][0] == "call" and kk[1][1].endswith("::len")) for kk in sub[0]):
+                stable = True
+                for kk in sub[0]:
+                    call = kk if kk[0] == "call" else kk[1]
+                    r_ = root_of(call[2][0]) if call[2] else None
+                    if r_ and r_[0] == "local":
+                        reach = nv.reachable_blocks(dblk) - {dblk}
+                        if any(bb in reach for bb, sh, args, t in mutations_of(nv, r_[1]) if sh in ("push", "extend", "insert", "append", "resize", "extend_from_slice", "truncate", "clear", "pop", "remove")):
+                            stable = False
+                if stable:
+                    rep_ = sub
+        if rep_ is None:
+            out[k] = out.get(k, 0) + v
+        else:
+            c += v * rep_[1]
+            for kk, vv in rep_[0].items():
+                out[kk] = out.get(kk, 0) + v * vv
+    return ({k: v for k, v in out.items() if v}, c)
+
+
 def fmt_affine(a):
     if a is None:
         return "non-affine"
@@ -214,9 +246,41 @@ def comparator_spec(cb):
         return None
     t = rets[0].ret
 
+    def subst_upvars(x, caps):
+        """a nested closure's term with its captured variables replaced by what the enclosing closure captured"""
+        if not isinstance(x, tuple) or not x:
+            return x
+        if x[0] == "field" and isinstance(x[3], int):
+            base = x[1]
+            while base[0] in ("ref", "deref"):
+                base = base[1]
+            if base[0] == "param" and base[1] == 1 and x[3] < len(caps):
+                return caps[x[3]]
+        return tuple(subst_upvars(y, caps) if isinstance(y, tuple) else y for y in x)
+
     def comps(t, flip=False):
         if t[0] == "call":
             sh = t[1].rsplit("::", 1)[-1]
+            if sh == "then_with" and len(t[2]) == 2:
+                a = comps(t[2][0], flip)
+                c = t[2][1]
+                while c[0] in ("ref", "deref"):
+                    c = c[1]
+                if a is None or c[0] != "agg" or c[1] != "closure":
+                    return None
+                cb2 = cb.facts.bodies.get(c[2])
+                if cb2 is None:
+                    return None
+                try:
+                    r2 = [p for p in enum_paths(cb2) if p.end == "ret"]
+                except PathLimit:
+                    return None
+                if len(r2) != 1:
+                    return None
+                b = comps(subst_upvars(r2[0].ret, c[4]), flip)
+                if b is None:
+                    return None
+                return a + b
             if sh in ("then",) and len(t[2]) == 2:
                 a = comps(t[2][0], flip)
                 b = comps(t[2][1], flip)
@@ -226,6 +290,20 @@ def comparator_spec(cb):
             if sh == "reverse" and len(t[2]) == 1:
                 return comps(t[2][0], not flip)
             if sh in ("cmp", "partial_cmp", "total_cmp") and len(t[2]) == 2:
+                # tuples compare lexicographically: (a.1, a.0).cmp(&(b.1, b.0))
+                ta, tb = t[2][0], t[2][1]
+                while ta[0] in ("ref", "deref"):
+                    ta = ta[1]
+                while tb[0] in ("ref", "deref"):
+                    tb = tb[1]
+                if ta[0] == "agg" and tb[0] == "agg" and ta[1] == "tuple" and tb[1] == "tuple" and len(ta[4]) == len(tb[4]) and ta[4]:
+                    out = []
+                    for xa, xb in zip(ta[4], tb[4]):
+                        c = comps(("call", "cmp", (xa, xb)), flip)
+                        if c is None:
+                            return None
+                        out += c
+                    return out
                 pa = field_path(t[2][0])
                 pb = field_path(t[2][1])
                 if pa is None or pb is None or pa[1] != pb[1] or pa[0] == pb[0]:
